@@ -22,16 +22,18 @@ Definition g_cyc : netlist :=
 
 (* ---------------------------------------------------------------- cycles *)
 
-(* For ALL netlists g (any cells, connections, signals): a reported CombinationalCycle path is a real,
-   non-empty closed chain of comb edges (no false positive of the DFS). *)
+(* For ALL netlists g whose cell 0 is Top (any other cells, connections, signals): a reported
+   CombinationalCycle path p is a real, non-empty chain of comb edges from the reporting frame's net m back
+   to m — or to an output s merged with m (same non-per-bit cell, hence the same comb edges) — and s lies on
+   a real cycle (no false positive of the DFS). *)
 Theorem C06_dfs_sound : forall g p,
-  check_cycles g = VCycle p ->
-  exists x, chain g x p /\ p <> [] /\ last p x = x /\ reach g x x.
+  top_first g = true -> check_cycles g = VCycle p ->
+  exists s m, chain g s p /\ p <> [] /\ last p s = m /\ (s = m \/ In s (extras g m)) /\ reach g s s.
 Proof. exact dfs_sound. Qed.
 Print Assumptions C06_dfs_sound.
-Example C06_dfs_sound_ex : check_cycles g_cyc = VCycle [NL 2; NC 1 0]
+Example C06_dfs_sound_ex : check_cycles g_cyc = VCycle [NL 2; NC 1 0] /\ top_first g_cyc = true
                            /\ check_cycles g_shift_word = VCycle [NL 2; NC 1 0].
-Proof. vm_compute. split; reflexivity. Qed.
+Proof. vm_compute. repeat split. Qed.
 
 (* For ALL netlists g — including cells whose outputs the DFS merges into one node (extra_nets) —:
    acceptance means that no net of the netlist reaches itself through >= 1 comb edge (no false negative).
@@ -50,22 +52,24 @@ Print Assumptions C06_dfs_fuel.
 Example C06_dfs_fuel_ex : wf_netlist g_cyc = true /\ wf_netlist g_shift_word = true.
 Proof. vm_compute. split; reflexivity. Qed.
 
-(* For ALL well-formed netlists: a cycle through any net is rejected — but the faithful model can only
-   promise "CombinationalCycle OR the bare AssertionError of `assert traverse(net) is None`": *)
+(* For ALL netlists: the top-level `assert traverse(net) is None` never fails — a Cycle object always
+   starts at a busy net, busy nets are the frames' nets and their merged siblings, and since the fix
+   `cycle.start == net or cycle.start in extra_nets` (repo commit 93c56bc) both are caught by the owning frame. *)
+Theorem C06_dfs_no_assert : forall g, check_cycles g <> VAssert.
+Proof. exact dfs_no_assert. Qed.
+Print Assumptions C06_dfs_no_assert.
+
+(* For ALL well-formed netlists: a cycle through any of its nets is rejected with CombinationalCycle
+   (no false negative, right exception). *)
 Theorem C06_dfs_rejects_cycles : forall g n,
-  wf_netlist g = true -> In n (all_nets g) -> reach g n n ->
-  (exists p, check_cycles g = VCycle p) \/ check_cycles g = VAssert.
+  wf_netlist g = true -> In n (all_nets g) -> reach g n n -> exists p, check_cycles g = VCycle p.
 Proof. exact dfs_rejects_cycles. Qed.
 Print Assumptions C06_dfs_rejects_cycles.
-
-(* "fails with a combinational-cycle error whenever a bit depends on itself" is FALSE of the faithful model:
-   m.d.comb += a.eq(a[1] + 1): the DFS enters the adder by output 0 and closes the cycle on its sibling
-   output 1, which is busy but never the `start` of any frame; the Cycle object reaches the top-level assert. *)
-Theorem C06_dfs_cycle_error_refuted :
-  wf_netlist g_assert = true /\ reach g_assert (NL 1) (NL 1) /\ In (NL 1) (all_nets g_assert)
-  /\ check_cycles g_assert = VAssert.
-Proof. exact dfs_cycle_error_refuted. Qed.
-Print Assumptions C06_dfs_cycle_error_refuted.
+(* m.d.comb += a.eq(a[1] + 1): entered by adder output 0, closed on sibling output 1 (formerly AssertionError) *)
+Example C06_dfs_rejects_cycles_ex :
+  wf_netlist g_assert = true /\ top_first g_assert = true /\ reach g_assert (NL 1) (NL 1)
+  /\ check_cycles g_assert = VCycle [NL 1; NC 1 0].
+Proof. exact dfs_sibling_cycle_reported. Qed.
 
 (* For ALL per-bit cells (~ & | ^ Mux AssignmentList IOBuffer), bits and valuations: output bit `bit`
    is a function of the nets in comb_edges c bit only — the modelled edge relation contains every input
